@@ -413,9 +413,13 @@ class USBStreamOutEndpoint(Elaboratable):
         with m.If(data_is_lost):
             m.d.usb += overflow.eq(1)
 
-        # We'll clear the overflow flag and byte counter when the packet is done.
-        with m.Elif(fifo.write_commit | fifo.write_discard):
+        # We'll keep the overflow flag until the next token: the handshake for this packet is decided
+        # an interpacket delay after the packet is committed/discarded, and still needs to know about it.
+        with m.Elif(tokenizer.new_token):
             m.d.usb += overflow.eq(0)
+
+        # We'll clear the byte counter when the packet is done.
+        with m.If(fifo.write_commit | fifo.write_discard):
             m.d.usb += rx_cnt.eq(0)
 
         # We'll toggle our DATA PID each time we issue an ACK to the host [USB 2.0: 8.6.2].
